@@ -358,6 +358,25 @@ theorem layout_agrees (d : FnDef) (j : Nat) (n : Bind.Name) (hj : d.captures[j]?
   simp only [List.cons_append, findSlot, show (Slot.alloc = Slot.assigned n) = False by simp, if_false, List.append_assoc]
   rw [step1 d.params _ (0 + 1) hnotparam, step2 d.captures _ _ j hj hfirst]
 
+/-- **wf_layout_fits.** For a well-formed parameter list (argument names pairwise distinct, /repo
+7adfc01) the registers that `Frame::new` hands out — self, every top-level argument, the captures,
+every unpacked name — are exactly the registers below `temporary_base` that are not reserved for body
+locals: the compiler's per-occurrence layout and the parser's `local_count` (distinct ids) agree. -/
+theorem wf_layout_fits (d : FnDef) (h : d.wellFormed = true) :
+    (frameSlots d).length + d.bodyLocals = tempBase d := by
+  unfold FnDef.wellFormed FnDef.paramNames at h
+  have hd := dedup_length_of_nodup _ h
+  have hp := params_length d.params
+  simp only [frameSlots, tempBase, List.length_cons, List.length_append, List.length_map, hd]
+  omega
+
+/-- **dup_layout_overflows** (known finding F-C02-11, fixed by rejecting such lists). Without
+well-formedness the layout does not fit: for `|a, (a, b)|` `Frame::new` hands out 5 registers while
+`temporary_base` is 4, so the unpacked `b` lives in the first temporary register. -/
+theorem dup_layout_overflows :
+    let d : FnDef := { params := [.id 1, .tuple [.id 1, .id 2]], optCount := 0, variadic := false, captures := [] }
+    d.wellFormed = false ∧ (frameSlots d).length = 5 ∧ tempBase d = 4 := by decide
+
 /-- **single_ellipsis_binds_all** (F-C02-3, fixed in /repo 7cd4923; before the fix the prologue
 sliced *up to index 0* and `xs` was empty). For every tuple or list argument, `|(xs...)|` binds `xs`
 to the whole container: the prologue is `CheckSizeMin 0; SliceFrom 0`. -/
